@@ -42,6 +42,12 @@ def valid_ops(l, pool):
 def observe(container, ids, cap):
     def ident(o):
         return -1 if o is None else ids.get(id(o), -9)
+    # length asked BEFORE any walk of this observation (a walk could refresh a cache); bounded, the chain may be cyclic
+    try:
+        with lib.budget(40 * cap + 400):
+            n0 = len(container)
+    except lib.BudgetExceeded:
+        n0 = None
     fwd = list(itertools.islice(iter(container), cap))
     back = []
     cur = container.last
@@ -51,6 +57,8 @@ def observe(container, ids, cap):
     links = [[ident(e.previous), ident(e.next)] for e in fwd]
     flags = [[e.is_first, e.is_last] for e in fwd]
     n = len(container) if len(fwd) < cap else -1
+    if n0 is not None and n != -1 and n0 != n:
+        n = [n0, n]   # two answers for one state
     return {"fwd": [ident(e) for e in fwd], "back": [ident(e) for e in back], "first": ident(container.first),
             "last": ident(container.last), "links": links, "flags": flags, "len": n}
 
@@ -136,12 +144,25 @@ class CHECK(Check):
         ids = {id(e): i for i, e in enumerate(elems)}
         c = F["Data"](elems[0])
         out = []
-        for op in case["ops"]:
+        import hashlib, json
+        h = int(hashlib.sha1(json.dumps(case, sort_keys=True).encode()).hexdigest(), 16)
+        for j, op in enumerate(case["ops"]):
+            # a third of the operations run while an iteration over the container is suspended (`for e in c: c.remove(e)` is
+            # ordinary user code); the iterator is exhausted afterwards. Iterating is an observation: it must not change what
+            # the container answers afterwards.
+            it = None
+            if (h >> (2 * j)) % 3 == 0:
+                it = iter(c)
+                for _ in range((h >> (2 * j + 7)) % 3):
+                    next(it, None)
             try:
                 apply_op(c, elems, op)
             except AttributeError:
                 out.append("AttributeError")
                 break
+            if it is not None:
+                for _ in itertools.islice(it, case["cap"]):
+                    pass
             out.append(observe(c, ids, case["cap"]))
         return out
 
